@@ -154,8 +154,22 @@ func Gen(r *rand.Rand, o GenOpts) []string {
 		n, _ := strconv.Atoi(v)
 		return genLaggard(r, o, n, 6+r.Intn(10))
 	}
+	// "long stall" family (stall.go): one block delivering several hundred events.  ABFTH_STALL=<rounds> forces it.
+	if v := os.Getenv("ABFTH_STALL"); v != "" && o.Mix == "C02" {
+		n, _ := strconv.Atoi(v)
+		return genStall(r, o, 7+r.Intn(4), n)
+	}
+	if o.Mix == "C02" {
+		rate := 250
+		if o.Tier == "thorough" {
+			rate = 80
+		}
+		if r.Intn(rate) == 0 {
+			return genStall(r, o, 7+r.Intn(4), 52+r.Intn(16))
+		}
+	}
 	if o.Mix == "C04" || o.Mix == "C07" {
-		rate := 200
+		rate := map[string]int{"C04": 200, "C07": 400}[o.Mix] // the corpus holds one such case per property
 		if o.Tier == "thorough" {
 			rate = 80
 		}
